@@ -236,6 +236,7 @@ func (h *harness) exec(tok CStep) *verr {
 	s := h.h.nSteps
 	h.h.nSteps++
 	desc := tok.String()
+	setWhere("step %d (%s): a call started or released by this step, or one released earlier,", s, desc)
 	np := len(h.sc.Producers)
 	switch tok.K {
 	case "ins":
@@ -415,6 +416,7 @@ func (h *harness) observe(s int) *verr {
 	}
 	// queue length at quiescence
 	n := -1
+	setWhere("Len() at the end of step %d (%s)", s, h.h.stepDesc[s])
 	if !h.simple("Len()", func() { n = h.q.Len() }) {
 		return newVerr("blocked-call", "step %d: Len() did not return", s)
 	}
@@ -771,6 +773,15 @@ func (h *harness) collect(scenarioSteps int) {
 	if h.st.nontrivial {
 		h.label("nontrivial")
 	}
+	// the glog verbosity drawn for the case (vstat.RunRapid) in combination with what happened in it
+	if vstat.GlogV() > 0 {
+		for _, l := range []string{"nontrivial", "close-with-pending", "waiting-consumer-woken-by-close", "waiting-consumer-woken-by-insert", "cancel-while-waiting",
+			"insert-after-close-refused", "producer-parked-across-close", "consumer-parked-at-empty-then-close", "double-close"} {
+			if h.st.labels[l] {
+				h.label("glog-verbosity>0:" + l)
+			}
+		}
+	}
 }
 
 func sortStrings(a []string) {
@@ -839,6 +850,9 @@ func TestC11Concurrent(t *testing.T) {
 		t.Skip()
 	}
 	rec := vstat.New("C11", "concurrent")
+	w := watchPart(rec, "rapid")
+	defer w.close()
+	slot := w.slot()
 	failedOnce := false
 	// The code under test blocks in a select whose choice among ready cases is
 	// made by the Go runtime, so the same scenario can pass in one run and fail
@@ -853,15 +867,18 @@ func TestC11Concurrent(t *testing.T) {
 		rec.Current(sc)
 		var st concStats
 		var err error
-		key := vstat.Hash(sc)
+		// the verdict of a case belongs to (scenario, glog verbosity): the shrinker changes both
+		key := vstat.Hash(sc) ^ (uint64(vstat.GlogV()+1) * 0x9e3779b97f4a7c15)
 		if prev, seen := memo[key]; failedOnce && seen {
 			err = prev
 		} else {
+			slot.begin(func() (any, string) { return sc, getWhere() })
 			st, err = runConc(t, sc)
 			rec.Case(sc, st.nontrivial, st.labelList()...)
 			for i := 0; err == nil && failedOnce && i < shrinkTries-1; i++ {
 				_, err = runConc(t, sc)
 			}
+			slot.end()
 			if failedOnce || err != nil {
 				memo[key] = err
 			}
